@@ -70,6 +70,15 @@ Example C02_value_example :
                ([97], Seq [(RIdx 0, null_node); (RIdx 1, Seq [(RIdx 0, Scalar TInt [53])])])]) ++ [10].
 Proof. exact assign_value_example. Qed.
 
+(* a multi-match left-hand side: `.[] = scalar` gives every child of a sequence or map the value, in document order,
+   keeps every key, and touches nothing else *)
+Theorem C02_assign_splat_sets_every_child : forall t v doc f,
+  (3 <= f)%nat -> (match doc with Scalar _ _ => False | _ => True end) ->
+  exists st', eval (S f) (EAssign (EIndex ESelf None) (ELit t v)) false [] [(O, [])] (init_store doc) = Ok ([(O, [])], st')
+              /\ deref st' (O, []) = Some (set_children doc (Scalar t v)).
+Proof. exact assign_splat_sets_children. Qed.
+Print Assumptions C02_assign_splat_sets_every_child.
+
 (* `p |= r` at any simple path and for every body r: the path is created, r runs with the match as its context, and
    the match receives r's FIRST result; no result leaves it alone. *)
 Theorem C02_update_first_result_or_none : forall p r doc f n1 pos,
@@ -108,7 +117,8 @@ Example C02_path_example :
 Proof. exact assign_path_example. Qed.
 
 (* The key-path special cases (Proofs/AssignProofs.v), kept because their statements are exact about the store.
-   Multi-match left-hand sides, right-hand sides with several results and op= are tied by the correspondence check only. *)
+   Other multi-match left-hand sides (select-filtered, recursive), right-hand sides with several results and op= are
+   tied by the correspondence check only. *)
 Theorem C02_assign_is_put_keys_partial : forall ks t v doc fuel,
   ks <> [] -> (length ks + 3 <= fuel)%nat -> no_wild ks ->
   forall n', put (List.map SKey ks) (Scalar t v) doc = Some n' ->
